@@ -48,6 +48,7 @@ Prog(n, vl, c, decoded) ==
      [op |-> "sign", obj |-> "m", signers |-> [i \in 1..n |-> Sg(i)]] @@ X,
      [op |-> "marshal", obj |-> "m", buf |-> "b"] >>
   \o (IF decoded THEN <<[op |-> "unmarshal", obj |-> "m2", kind |-> "sign", buf |-> "b"]>> ELSE <<>>)
+  \o (IF n > 0 THEN <<[op |-> "verify", obj |-> obj, verifiers |-> [j \in 1..n |-> Vf(j)]] @@ X>> ELSE <<>>)     \* populate whatever the library might remember
   \o CorruptSteps(obj, n, c)
   \o << [op |-> "marshal", obj |-> obj, buf |-> "b2"],
         [op |-> "probe", obj |-> obj],
